@@ -298,6 +298,33 @@ pub fn run(ctx: &mut Ctx) {
         ctx.case(reg::fingerprint(&merged), nt);
         ctx.count("two_version_cases", 1);
     }
+    // (C') hand-written single-crate families
+    for (i, (what, prog)) in families_gallery().into_iter().enumerate() {
+        if ctx.mine(i as u64) {
+            sim_family(ctx, &prog, format!("families-gallery#{i}: {what}"));
+            ctx.count("families_gallery_cases", 1);
+        }
+    }
+    // (D') hand-written two-versions pairs, both registration orders
+    for (i, (what, p1, p2)) in versions_gallery().into_iter().enumerate() {
+        if !ctx.mine(i as u64) {
+            continue;
+        }
+        for flip in [false, true] {
+            let (pa, pb) = if flip { (&p2, &p1) } else { (&p1, &p2) };
+            let (o1, o2) = (sim::simulate(pa), sim::simulate(pb));
+            let merged = merge(&o1.registry, &o2.registry);
+            let off = o1.registry.types.len() as u32;
+            let mut noncf: BTreeSet<u32> = sim::coincidences(pa, &o1);
+            noncf.extend(sim::coincidences(pb, &o2).iter().map(|i| *i + off));
+            let label = format!("two-versions-gallery#{i}{}: {what}", if flip { " (flipped)" } else { "" });
+            let c = FamCase { reg: &merged, noncf: &noncf, label: label.clone(), source: Some(format!("// version 1\n{}\n// version 2\n{}", pa.render_source("TypeInfo"), pb.render_source("TypeInfo"))) };
+            ctx.begin_case(&label);
+            let nt = judge_case(ctx, &c);
+            ctx.case(reg::fingerprint(&merged), nt);
+            ctx.count("two_version_gallery_cases", 1);
+        }
+    }
     // (E) Polkadot
     if ctx.shard == 0 {
         let polka = reg::load_polkadot();
